@@ -390,6 +390,11 @@ func (c *Ctx) c12EvictLeast(b BK) {
 	nDel := 0
 	badAmt, badPrefix := false, false
 	nCollect := 0
+	if b.Sharded {
+		if _, ok := c.shardCoverage("R12.3", op, run.paths, false); !ok {
+			badPrefix = true
+		}
+	}
 	for _, p := range run.paths {
 		// collection: every iterated entry contributes exactly one record (metric + key) and the scan is not cut short
 		for _, g := range iterations(p) {
